@@ -231,6 +231,8 @@ func dbApply(pdb **DB, dir string, opts *Options, r *refMap, op, k int, v []byte
 		vAssert(err == nil, tag+".reopen.err")
 		if err == nil {
 			*pdb = ndb
+			// after a clean restart appends still go to the newest segment only
+			vCheckLogInvariant(ndb, tag+".reopen")
 		}
 	}
 }
